@@ -478,7 +478,7 @@ PROPS = {
         "rule": CREW_RULE,
     },
     "C16": {
-        "modules": ["Sheens.Props.C16"],
+        "modules": ["Sheens.Props.C16", "Sheens.Props.C16Serial"],
         "theorems": [],
         "facts": ["mcrew_write_under_lock", "mcrew_write_before_memory"],
         "runs": {
